@@ -153,6 +153,7 @@ class Torus:
         Qp = np.linalg.pinv(0.5 * (Q + Q.T), hermitian=True)
         num = {'ss': D0['ss'] + bS.T @ Qp @ bS, 'sv': D0['sv'] + bS.T @ Qp @ bV, 'vv': D0['vv'] + bV.T @ Qp @ bV}
         self.used1, self.used2, self.nstates = used1, used2, ns
+        self.Q, self.bS, self.bV, self.states, self.sidx, self.E, self.Qp = Q, bS, bV, states, sidx, E, Qp
         return num
 
     def baresite(self, bFV, bFT0):
